@@ -77,7 +77,7 @@ def main():
             ok = "test result: ok" in o
             os.remove(os.path.join(wt, "tests", "seeded_demo.rs"))
             return ok, o[-1500:]
-        rc, o = sh(f"bash {demo_sh} 2>&1 | tail -15", wt, env=env)
+        rc, o = sh(f"bash {demo_sh} 2>&1", wt, env=env)
         return rc == 0, o[-1500:]
 
     if not skip_verify:
